@@ -60,6 +60,28 @@ def check_map(ctx, part, kind, fn):
     def scalar_samples():
         return pos[:: max(1, n // 6)]
 
+    # a vector of one position is a vector: its answer is that of a longer vector cut down to one position
+    if n >= 1:
+        t_one = pos[len(pos) // 2]
+        try:
+            a2 = np.asarray(fn(np.asarray([t_one, t_one])))
+        except Exception:  # noqa  (judged below, with the array form)
+            a2 = None
+        if a2 is not None and a2.ndim >= 1:
+            ctx.check()
+            try:
+                a1 = np.asarray(fn(np.asarray([t_one])))
+                ok_ = a1.ndim == a2.ndim and all(d1 == d2 or (d1 == 1 and d2 == 2) for d1, d2 in zip(a1.shape, a2.shape))
+                if ok_:
+                    ax = [i_ for i_, (d1, d2) in enumerate(zip(a1.shape, a2.shape)) if d1 == 1 and d2 == 2]
+                    ok_ = len(ax) >= 1 and bool(np.all(np.take(a2, [0], axis=ax[0]) == a1))
+                if not ok_:
+                    ctx.violation(f"{kind}-one-element-vector-answered-differently", f"one position as a vector: shape {a1.shape}; the same position twice: "
+                                  f"shape {a2.shape}", dict(w, position=int(t_one)))
+                    return
+            except Exception as e:  # noqa
+                ctx.violation(f"{kind}-one-element-vector-answered-differently", f"one position as a vector: {type(e).__name__}: {e}", dict(w, position=int(t_one)))
+                return
     # "scalar and array queries agree": a plain list of positions is an array query too (the maps document lists/arrays)
     if n >= 2:
         some = pos[:: max(1, n // 5)][:6]
